@@ -229,6 +229,12 @@ type C01Plan struct {
 	// SeqPrefix != "": FASTA writer and reader are both configured with this
 	// sequence-line prefix (a public field of both; GFF uses "##").
 	SeqPrefix string `json:"seq_prefix,omitempty"`
+	// IDPrefix != "": FASTA writer and reader are both configured with this
+	// header marker (a public field of both; GFF's inline sequences use
+	// "##DNA " and the like on the writer side).
+	IDPrefix string `json:"id_prefix,omitempty"`
+
+	tmpl seqio.SequenceAppender // a template shared with other readers (multi-instance cases)
 	// TemplateCap > 0: the reader's template is empty but preallocated.
 	TemplateCap int            `json:"template_cap,omitempty"`
 	Delivery    simio.Delivery `json:"delivery"`
@@ -325,6 +331,9 @@ func genC01(r *simrt.RNG) *Case {
 		if r.Intn(8) == 0 {
 			pl.SeqPrefix = []string{"##", ";", "##"}[r.Intn(3)]
 		}
+		if r.Intn(8) == 0 {
+			pl.IDPrefix = []string{">>", "##DNA:", ">gi|", "@", ";;"}[r.Intn(5)] // blank-free: the reader splits the header line at its first blank
+		}
 	} else {
 		pl.Format = "fastq"
 		pl.QID = r.Bool()
@@ -366,6 +375,9 @@ func buildSeq(rec SeqRec, pl *C01Plan) seq.Sequence {
 }
 
 func seqTemplate(pl *C01Plan) seqio.SequenceAppender {
+	if pl.tmpl != nil {
+		return pl.tmpl
+	}
 	alpha := alphaOf[pl.Alpha]
 	if pl.Qual {
 		t := linear.NewQSeq("", nil, alpha, alphabet.Encoding(pl.Enc))
@@ -395,6 +407,9 @@ func writeSeqsTo(pl *C01Plan, sink *simio.Sink) ([]byte, int, *simrt.Violation) 
 		fw := fasta.NewWriter(sink, pl.Width)
 		if pl.SeqPrefix != "" {
 			fw.SeqPrefix = []byte(pl.SeqPrefix)
+		}
+		if pl.IDPrefix != "" {
+			fw.IDPrefix = []byte(pl.IDPrefix)
 		}
 		w = fw
 	} else {
@@ -432,6 +447,9 @@ func runReject(pl *C01Plan, res *Result) *simrt.Violation {
 		fw := fasta.NewWriter(sink, pl.Width)
 		if pl.SeqPrefix != "" {
 			fw.SeqPrefix = []byte(pl.SeqPrefix)
+		}
+		if pl.IDPrefix != "" {
+			fw.IDPrefix = []byte(pl.IDPrefix)
 		}
 		w = fw
 	} else {
@@ -502,6 +520,9 @@ func readSeqs(pl *C01Plan, src *simio.Source, limit int) (recs []gotSeq, v *simr
 		fr := fasta.NewReader(src, seqTemplate(pl))
 		if pl.SeqPrefix != "" {
 			fr.SeqPrefix = []byte(pl.SeqPrefix)
+		}
+		if pl.IDPrefix != "" {
+			fr.IDPrefix = []byte(pl.IDPrefix)
 		}
 		rd = fr
 	} else {
@@ -655,6 +676,9 @@ func runC01(t *testing.T, c *Case, o RunOpts) *Result {
 type PairPlan struct {
 	Seq  []C01Plan `json:"seq,omitempty"`
 	Feat []C02Plan `json:"feat,omitempty"`
+	// ShareTemplate: all sequence readers are given the same template object
+	// (readers only ever clone their template).
+	ShareTemplate bool `json:"share_template,omitempty"`
 }
 
 func smallSeqPlan(r *simrt.RNG) C01Plan {
@@ -688,6 +712,22 @@ func genPairC01(r *simrt.RNG) *Case {
 	for n := r.Range(2, 3); n > 0; n-- {
 		pp.Seq = append(pp.Seq, smallSeqPlan(r))
 	}
+	if r.Intn(3) == 0 {
+		// the same kind of file several times over, read with one shared template
+		pp.ShareTemplate = true
+		for i := 1; i < len(pp.Seq); i++ {
+			recs := pp.Seq[i].Recs
+			pp.Seq[i] = pp.Seq[0]
+			pp.Seq[i].Recs = nil
+			for _, rec := range genSeqRecs(r, pp.Seq[0].Alpha, pp.Seq[0].Format == "fastq" && pp.Seq[0].Qual, alphabet.Encoding(pp.Seq[0].Enc)) {
+				if len(pp.Seq[i].Recs) < 3 && len(rec.Letters) <= 40 && len(rec.Name) <= 12 && len(rec.Desc) <= 20 && rec.GenN == 0 {
+					pp.Seq[i].Recs = append(pp.Seq[i].Recs, rec)
+				}
+			}
+			_ = recs
+			pp.Seq[i].Delivery = simio.NoFault([]string{"all", "uniform", "one"}[r.Intn(3)], r.Uint64())
+		}
+	}
 	return &Case{Prop: "C01", Kind: "pair", Plan: marshalPlan(pp),
 		Sched: Sched{Strategy: fmt.Sprintf("rw:%g", []float64{0.2, 0.5, 1}[r.Intn(3)]), Seed: r.Uint64()}}
 }
@@ -705,8 +745,13 @@ func runPair(t *testing.T, c *Case, o RunOpts) *Result {
 	// whatever the interleaving
 	return execSim(t, c, o, 400000, false, func(sim *simrt.Sim) func() {
 		yield := func() { sim.Yield("medium") }
+		var shared seqio.SequenceAppender
+		if pp.ShareTemplate && len(pp.Seq) > 0 {
+			shared = seqTemplate(&pp.Seq[0])
+		}
 		for i := range pp.Seq {
 			pl := &pp.Seq[i]
+			pl.tmpl = shared
 			i := i
 			sim.Client(fmt.Sprintf("roundtrip%d", i), func() {
 				sink := &simio.Sink{OnWrite: yield}
